@@ -801,43 +801,51 @@ func ruleTeeReads(w *core.World, r *core.Report) {
 	}
 }
 
+// ruleRestoreChoiceAgrees (R03.9): the plain replay (RdbReplay.Replay) and the bidirectional one
+// (bisyncRdbUseRestore) choose RESTORE under the same four conditions. Stated on paths (r7_n1.go,
+// restoreChoiceOnPaths): whatever chooses RESTORE has established all four, in whatever arrangement.
 func ruleRestoreChoiceAgrees(w *core.World, r *core.Report) {
-	summary := func(f *ssa.Function) string {
-		set := map[string]bool{}
-		for _, s := range core.Sites(f, false) {
-			switch s.Method {
-			case "CanRestore", "ValueDumpSize", "IsSplited":
-				set[s.Method] = true
-			}
-		}
-		for _, in := range core.Instrs(f) {
-			if b, ok := in.(*ssa.BinOp); ok && b.Op == token.GTR {
-				if isIfaceCallName(core.Unwrap(b.X), "ValueDumpSize") && core.IsFieldLoad(core.Unwrap(b.Y), "", "MaxProtoBulkLen") {
-					set["size>max"] = true
-				}
-			}
-			if fa, ok := in.(*ssa.FieldAddr); ok {
-				n := core.FieldName(fa)
-				if n == "EnableRestore" || n == "ReplayRdbEnableRestore" {
-					set["enabled"] = true
-				}
-			}
-		}
-		var ks []string
-		for k := range set {
-			ks = append(ks, k)
-		}
-		sort.Strings(ks)
-		return strings.Join(ks, ",")
-	}
 	a := fn(w, r, replayFn)
 	b := fn(w, r, "(*syncer.RedisOutput).bisyncRdbUseRestore")
 	if a == nil || b == nil {
 		return
 	}
-	sa, sb := summary(a), summary(b)
-	want := "CanRestore,IsSplited,ValueDumpSize,enabled,size>max"
-	r.Check(sa == want && sb == want, "restore-choice/agree", b.Pos(), "both replay paths must choose RESTORE exactly when enabled, restorable, not split and payload <= proto-max-bulk-len (plain: %s; bidirectional: %s)", sa, sb)
+	// plain replay: the path sends a RESTORE command
+	sendsRestore := func(p *core.Path) (bool, ssa.Value, bool, bool) {
+		for _, e := range replayEvents(p) {
+			if e.kind == "restore" || e.kind == "restore-replace" {
+				return true, nil, false, true
+			}
+		}
+		return false, nil, false, true
+	}
+	// bidirectional replay: the predicate returns true
+	returnsTrue := func(p *core.Path) (bool, ssa.Value, bool, bool) {
+		ret, isRet := p.End.(*ssa.Return)
+		if !isRet {
+			return false, nil, false, true // a panic chooses nothing
+		}
+		if len(ret.Results) != 1 {
+			return false, nil, false, false
+		}
+		v := p.Resolve(core.RetVal(ret, 0))
+		if val, known := p.Eval(v); known {
+			return val, nil, false, true
+		}
+		// a boolean expression is returned: RESTORE is chosen when it is true
+		return true, v, true, true
+	}
+	badA, posA, nA, okA := restoreChoiceOnPaths(w, a, sendsRestore)
+	badB, posB, nB, okB := restoreChoiceOnPaths(w, b, returnsTrue)
+	if !okA || !okB {
+		r.Undecided("restore-choice/agree", b.Pos(), "too many paths (plain enumerated: %v, bidirectional enumerated: %v)", okA, okB)
+		return
+	}
+	pos := posB
+	if badA != "" {
+		pos = posA
+	}
+	r.Check(badA == "" && badB == "" && nA > 0 && nB > 0, "restore-choice/agree", pos, "both replay paths must choose RESTORE only when enabled, restorable, not split and payload <= proto-max-bulk-len; a RESTORE of one chunk of a split value, or of a payload the target refuses, loses part of the snapshot (plain replay: %s, paths choosing RESTORE=%d; bidirectional: %s, paths=%d)", badA, nA, badB, nB)
 }
 
 func isUnsigned(t types.Type) bool {
@@ -868,7 +876,7 @@ func ruleChunksAppend(w *core.World, r *core.Report) {
 		for _, e := range replayEvents(p) {
 			if e.kind == "del" || e.kind == "exists" {
 				n++
-				whole := pathAssumed(p, func(x ssa.Value) bool {
+				whole := pathAssumedN(p, func(x ssa.Value) bool {
 					c, ok := core.Unwrap(x).(*ssa.Call)
 					return ok && c.Call.IsInvoke() && c.Call.Method.Name() == "IsSplited"
 				}, false)
